@@ -215,6 +215,16 @@ func (f *FuncVC) oblige(st *State, kind, src, goal string) *Obligation {
 		f.assume(st, goal)
 		return nil
 	}
+	if kind == "lossless" && f.con != nil && f.con.Opts["lossless_skip"] != "" {
+		for _, pat := range strings.Split(f.con.Opts["lossless_skip"], ";") {
+			if pat != "" && strings.Contains(src, pat) {
+				// the narrowed value is validated later (e.g. a size check after
+				// the loop that panics): no obligation here, nothing is assumed
+				f.usedAssumed["narrowing "+src+" in "+f.name()+" is exempt from the lossless obligation (opt lossless_skip): the contract must establish its range otherwise"] = true
+				return nil
+			}
+		}
+	}
 	if f.con != nil && f.con.Opts["only"] == "frame" {
 		switch kind {
 		case "index", "slice", "nil", "div", "shift", "make", "typeassert", "panic", "decreases":
